@@ -95,6 +95,115 @@ def native_replay(pkg, cases, timeout=300):
     return per, out
 
 
+# ---- C07: native confirmation through strace ----------------------------------------
+
+OS_KEEP = ("open ", "fallocate ", "pwrite ", "fsync ", "fsync-dir ", "unlink ", "rename ", "mark ")
+
+
+def canon_engine_trace(tr):
+    """engine OS trace -> comparable list (bbolt-internal and bookkeeping events dropped)"""
+    out = []
+    for e in tr or []:
+        if not e.startswith(OS_KEEP):
+            continue
+        if ".db" in e and not e.startswith("rename "):
+            continue  # what bbolt does inside its file is not modelled call by call
+        out.append(e.replace(" injected FAILED", " FAILED"))
+    return out
+
+
+def strace_replay(pkg, case, engine_trace, timeout=300):
+    """run the case natively on a real directory under strace (injecting the failure the engine's
+    trace contains, if any) and return the canonical native OS trace"""
+    import re
+    sub = pkg.split("/", 1)[1]
+    work = os.path.join(ROOT, ".work")
+    binp = os.path.join(work, sub + ".test")
+    r = sh(["go", "test", "-vet=off", "-c", "-o", binp, "./" + sub], cwd=HARNESS)
+    if r.returncode != 0:
+        return None, r.stdout[-800:]
+    d = tempfile.mkdtemp(prefix="vrt_", dir=work)
+    tdir = tempfile.mkdtemp(prefix="vrt-c07-", dir="/tmp")
+    inp, log = os.path.join(d, "in.json"), os.path.join(d, "strace.log")
+    json.dump({"cases": [case]}, open(inp, "w"))
+    inject = []
+    kinds = {"fsync": "fsync", "fsync-dir": "fsync", "pwrite": "pwrite64", "fallocate": "fallocate", "unlink": "unlinkat", "rename": "renameat"}
+    counts = {}
+    for e in engine_trace or []:
+        if e.endswith("injected FAILED") and e.split(" ", 1)[0] not in kinds:
+            shutil.rmtree(d, ignore_errors=True)
+            shutil.rmtree(tdir, ignore_errors=True)
+            return "skip", "failure of %s cannot be injected at system-call level" % e.split(" ", 1)[0]
+        op = e.split(" ", 1)[0]
+        sc = kinds.get(op)
+        if sc is None or (".db" in e and op != "rename"):
+            continue
+        counts[sc] = counts.get(sc, 0) + 1
+        if e.endswith("injected FAILED"):
+            inject.append("-e")
+            inject.append("inject=%s:error=EIO:when=%d" % (sc, counts[sc]))
+    cmd = ["timeout", str(timeout), "strace", "-f", "-y", "-qq", "-o", log,
+           "-e", "trace=openat,fallocate,pwrite64,fsync,fdatasync,unlinkat,unlink,rename,renameat,renameat2,newfstatat"] + inject + \
+          [binp, "-test.run", "^TestReplay$", "-test.timeout", "%ds" % (timeout - 10)]
+    env = dict(ENV, VRT_INPUTS=inp, VRT_EVENTS=os.path.join(d, "ev.txt"), VRT_TEMPDIR=tdir)
+    rr = subprocess.run(cmd, cwd=HARNESS, env=env, stdout=subprocess.PIPE, stderr=subprocess.STDOUT, text=True)
+    out = []
+    flagmap = {"O_RDWR": 2, "O_WRONLY": 1, "O_CREAT": 0x40, "O_EXCL": 0x80}
+    if os.path.exists(log):
+        for line in open(log):
+            m = re.match(r"^\d+\s+(\w+)\((.*)\)\s+= (-?\d+)(.*)$", line.strip())
+            if not m:
+                continue
+            sc, args, ret, rest = m.group(1), m.group(2), int(m.group(3)), m.group(4)
+            ok = ret >= 0
+            fail = "" if ok else " FAILED"
+            if tdir not in args and "/vrt-marker/" not in args:
+                continue
+
+            def rel(p):
+                return "d" + p[len(tdir):] if p.startswith(tdir) else p
+            if sc == "newfstatat" and "/vrt-marker/" in args:
+                out.append("mark " + re.search(r'"/vrt-marker/([^"]*)"', args).group(1))
+            elif sc == "openat":
+                pm = re.search(r'"([^"]+)", ([A-Z_|]+)', args)
+                if not pm or ".db" in pm.group(1):
+                    continue
+                path, fl = pm.group(1), pm.group(2)
+                if path == tdir:
+                    continue  # directory opens are bookkeeping
+                flags = sum(flagmap.get(x, 0) for x in fl.split("|"))
+                if ok:
+                    out.append("open %s flags=%#x" % (rel(path), flags))
+            elif sc in ("fsync", "fdatasync"):
+                pm = re.search(r"<([^>]+)>", args)
+                if not pm or ".db" in pm.group(1):
+                    continue
+                path = pm.group(1)
+                out.append(("fsync-dir " if path == tdir else "fsync ") + rel(path) + fail)
+            elif sc == "pwrite64":
+                pm = re.search(r"<([^>]+)>", args)
+                if not pm or ".db" in pm.group(1):
+                    continue
+                a = args.rsplit(",", 2)
+                out.append("pwrite %s off=%d len=%d%s" % (rel(pm.group(1)), int(a[2]), int(a[1]), fail))
+            elif sc == "fallocate":
+                pm = re.search(r"<([^>]+)>", args)
+                a = [x.strip() for x in args.split(",")]
+                out.append("fallocate %s size=%d extend=%d%s" % (rel(pm.group(1)), int(a[3]), 1 if a[1] == "0" else 0, fail))
+            elif sc in ("unlinkat", "unlink"):
+                pm = re.search(r'"([^"]+)"', args)
+                if ".db" in pm.group(1) or not ok or pm.group(1) == tdir:
+                    continue
+                out.append("unlink " + rel(pm.group(1)))
+            elif sc in ("rename", "renameat", "renameat2"):
+                ps = re.findall(r'"([^"]+)"', args)
+                if len(ps) >= 2:
+                    out.append("rename %s %s%s" % (rel(ps[0]), rel(ps[1]), fail))
+    shutil.rmtree(d, ignore_errors=True)
+    shutil.rmtree(tdir, ignore_errors=True)
+    return out, rr.stdout[-600:]
+
+
 def comparable(events):
     return [e for e in events if e[:2] in ("R:", "A:", "O:")]
 
@@ -207,6 +316,12 @@ def main():
         case = {"fn": fn, "inputs": v.get("inputs") or {}, "params": run.get("params", {})}
         if v["kind"] == "static":
             evs, raw, ev = [], "", []
+        elif run.get("trace"):
+            # C07: the violated predicate was evaluated on the engine's OS trace; it is confirmed
+            # when the real build, run under strace with the same failure injected, produces the same trace
+            nat, raw = strace_replay(pkg, case, v.get("os_trace"))
+            ev = [] if nat in (None, "skip") else nat
+            trace_ok = nat not in (None, "skip") and nat == canon_engine_trace(v.get("os_trace"))
         else:
             tries = 4 if run.get("sched") else 1
             for _ in range(tries):
@@ -218,6 +333,8 @@ def main():
                     break
         if v["kind"] == "static":
             ok = True  # deterministic scan of the source: re-running the scan is the replay
+        elif run.get("trace"):
+            ok = trace_ok
         elif v["kind"] == "assert":
             ok = ("A:%s:0" % vid) in ev
         elif v["kind"] == "panic":
@@ -227,6 +344,7 @@ def main():
         h = hashlib.sha1(json.dumps([pkg, fn, vid, v["inputs"]], sort_keys=True).encode()).hexdigest()[:12]
         rdir = os.path.join(ROOT, "replays", pid, h)
         rec = {"property": pid, "harness": pkg + "." + fn, "assertion": vid, "kind": v["kind"], "msg": v.get("msg", ""),
+               "engine_os_trace": canon_engine_trace(v.get("os_trace")) if run.get("trace") else None,
                "known_region": ktag, "confirmed_natively": ok, "path": v.get("path"), "sched": v.get("sched"),
                "engine_events": v.get("events"), "native_events": ev, "crc_pinned": v.get("crc_pinned")}
         if hit:
@@ -259,13 +377,25 @@ def main():
     # ---- native cross-validation of passing paths ----
     validated, mismatches = 0, []
     static_samples = []
+    samples_out = []
     groups = {}
     for run, s in crossval:
+        if run.get("trace"):
+            case = {"fn": run["fn"], "inputs": s["inputs"], "params": run.get("params", {})}
+            nat, raw = strace_replay(run["pkg"], case, s.get("os_trace"))
+            if nat == "skip":
+                continue
+            if nat is not None and nat == canon_engine_trace(s.get("os_trace")):
+                validated += 1
+                if len(samples_out) < 4:
+                    samples_out.append({"harness": run["pkg"] + "." + run["fn"], "params": run.get("params", {}), "native_strace_equals_engine_os_trace": nat[:40]})
+            else:
+                mismatches.append({"harness": run["pkg"] + "." + run["fn"], "engine": canon_engine_trace(s.get("os_trace")), "native": nat, "native_output_tail": raw})
+            continue
         if run.get("kind") == "metricscan":
             static_samples.append(s["events"][0])
             continue
         groups.setdefault(run["pkg"], []).append((run, s))
-    samples_out = []
     for pkg, lst in groups.items():
         lst = lst[: chk.get("crossval_max", 8)]
         cases = [{"fn": run["fn"], "inputs": s["inputs"], "params": run.get("params", {})} for run, s in lst]
